@@ -296,10 +296,36 @@ def run(tier, seed):
                         if got != want:
                             chk.violation(dict(meta, why='INDEX over a whole-column area does not address row 1 of the last column', impl=got, want=want, stream='oracle'))
     chk.judge('references', cases, sample_cap=4)
+    text_cells_law(chk)
     core.import_repo()
     lexmodel.run_ref_scanners(chk, tier)
     externals(chk)
     return chk.finish()
+
+
+def text_cells_law(chk):
+    """a referenced cell that holds a TEXT which merely looks like a formula (blanks before the =) is read as that text: the reference denotes the cell's value, nothing is
+    evaluated in its place"""
+    rows = [[' =B1', 5, '=A1&"|"', '=SUM(A1:B1)'],
+            ['\t=B1*2', 7, '=A2&"|"', '=COUNT(A1:A3)'],
+            ['  =Other!A1 ', 9, '=A3&"|"', '=INDEX(A1:B3,3,1)'],
+            ["'=B1", 1, '=A4&"|"', '=SUM(A:A)']]
+    sheets = [('Main', rows), ('Other', [[100]])]
+    want = {(2, 0): core.enc(' =B1|'), (3, 0): 'I5', (2, 1): core.enc('\t=B1*2|'), (3, 1): 'I0', (2, 2): core.enc('  =Other!A1 |'), (3, 2): core.enc('  =Other!A1 '),
+            (2, 3): core.enc("'=B1|"), (3, 3): 'I0', (0, 0): core.enc(' =B1'), (0, 1): core.enc('\t=B1*2'), (0, 2): core.enc('  =Other!A1 ')}
+    Cell = realcode.mods()['Cell']
+    try:
+        ex = realcode.executor_for(realcode.load_class(realcode.translate(sheets)))
+    except Exception as e:  # noqa
+        chk.violation({'why': 'a workbook with texts that look like formulas after leading blanks does not translate', 'impl': 'E' + core.exc_class(e), 'stream': 'text-cells'})
+        return
+    for (c, r), w in want.items():
+        got = core.outcome(lambda: ex.get_cell(Cell(0, c, r)).value)
+        chk.count('law:text-cells')
+        chk.seen(('textcell', c, r))
+        if got != w:
+            chk.violation({'why': 'a reference to a text cell that looks like a formula does not give the text', 'cell': (c, r), 'content': repr(rows[r][c]), 'impl': got, 'want': w,
+                           'stream': 'text-cells'})
 
 
 class _Skip(Exception):
